@@ -24,7 +24,27 @@ class _J:
 
 
 DIR = "/nonexistent/repo"
-KINDS = ["field", "array", "map", "union"]
+KINDS = ["field", "array", "map", "union", "array of union", "map of array"]
+
+
+class OutOfDomainGraph(Exception):
+    pass
+
+
+class _FakePath:
+    """os.path as seen by the repository module: exists() answers from the in-memory table"""
+
+    def __init__(self, fs):
+        self._fs = fs
+
+    def exists(self, p):
+        return p in self._fs.files
+
+    isfile = exists
+
+    def __getattr__(self, k):
+        import os.path
+        return getattr(os.path, k)
 
 
 class FakeFS:
@@ -42,7 +62,8 @@ class FakeFS:
 def _spell_impl(d):
     """dotted spelling: the full name in "name", no "namespace" attribute"""
     d = dict(d)
-    d["name"] = d.pop("namespace") + "." + d["name"]
+    nsp = d.pop("namespace")
+    d["name"] = (nsp + "." + d["name"]) if nsp else d["name"]
     return d
 
 
@@ -55,16 +76,17 @@ def _spell(d, dotted):
     return d
 
 
-def build(n, edges, kinds, rel, other_ns, leafkind, same=False, dotted=()):
+def build(n, edges, kinds, rel, other_ns, leafkind, same=False, dotted=(), nullns=False):
     """n types T0..T(n-1); edges: dict (i, j) -> bool for i < j (Ti refers to Tj); kinds[(i, j)] in 0..3;
     rel[(i, j)]: namespace-relative spelling (only where the namespaces agree); other_ns[j]: Tj lives in namespace 'o'
     returns (defs: list of raw definitions (each refers to the others by name), full names)"""
-    ns = ["m" if not (other_ns[j] if j < len(other_ns) else False) else "o" for j in range(n)]
-    ns[0] = "m"
+    base = "" if nullns else "m"  # the first namespace: "m", or the null namespace
+    ns = [base if not (other_ns[j] if j < len(other_ns) else False) else "o" for j in range(n)]
+    ns[0] = base
     simple = [f"T{j}" for j in range(n)]
     if same and n >= 3 and ns[1] != ns[2]:
         simple[1] = simple[2] = "X"  # two types with one simple name in different namespaces
-    full = [f"{ns[j]}.{simple[j]}" for j in range(n)]
+    full = [f"{ns[j]}.{simple[j]}" if ns[j] else simple[j] for j in range(n)]
     defs = []
     for i in range(n):
         outs = [j for j in range(i + 1, n) if edges.get((i, j))]
@@ -75,6 +97,8 @@ def build(n, edges, kinds, rel, other_ns, leafkind, same=False, dotted=()):
             defs.append({"type": "fixed", "name": simple[i], "namespace": ns[i], "size": 2})
             continue
         fields = [{"name": "id", "type": "int"}]
+        if any(ns[i] and not ns[j] for j in outs):
+            raise OutOfDomainGraph()  # a type in the null namespace cannot be named from inside a namespace
         for j in outs:
             spelled = simple[j] if (rel.get((i, j)) and ns[i] == ns[j]) else full[j]
             k = kinds.get((i, j), 0)
@@ -84,10 +108,14 @@ def build(n, edges, kinds, rel, other_ns, leafkind, same=False, dotted=()):
                 t = {"type": "array", "items": spelled}
             elif k == 2:
                 t = {"type": "map", "values": spelled}
-            else:
+            elif k == 3:
                 t = ["null", spelled]
+            elif k == 4:
+                t = {"type": "array", "items": ["null", spelled]}  # first use two container levels deep
+            else:
+                t = {"type": "map", "values": {"type": "array", "items": spelled}}
             fields.append({"name": f"r{j}", "type": t})
-            if k == 0 and i == 0 and j == n - 1:
+            if i == 0 and j == n - 1:
                 # the same type used a second time from the same file (repeated use)
                 fields.append({"name": f"again{j}", "type": ["null", full[j]]})
         defs.append({"type": "record", "name": simple[i], "namespace": ns[i], "fields": fields})
@@ -112,7 +140,7 @@ def inline(defs, full, i, done):
                 t["values"] = res(t["values"])
             return t
         if isinstance(t, str):
-            q = t if "." in t else (ns + "." + t)
+            q = t if ("." in t or not ns) else (ns + "." + t)
             if q in full:
                 if q in done:
                     return q
@@ -158,20 +186,23 @@ def deps_first(n, edges, reach):
     return order
 
 
-def ob_load(n, E, kinds_t, rel_t, ons_t, leafkind, missing, ordered, same=False, dotted=()):
+def ob_load(n, E, kinds_t, rel_t, ons_t, leafkind, missing, ordered, same=False, dotted=(), kmax=6, nullns=False):
     """E: tuple of (i, j) edges that exist (fixed per harness); kinds_t/rel_t: per edge; ons_t: per type;
     missing: -1 or the index into the reachable types (other than T0) whose file is removed"""
     edges = {e: True for e in E}
     kinds, rel = {}, {}
     for idx, e in enumerate(E):
         k = kinds_t[idx]
-        if not (0 <= k < 4):
+        if not (0 <= k < kmax):
             return True, "out of domain"
         kinds[e] = k
         rel[e] = rel_t[idx]
     if not (0 <= leafkind < 3):
         return True, "out of domain"
-    defs, full = build(n, edges, kinds, rel, ons_t, leafkind, same, dotted)
+    try:
+        defs, full = build(n, edges, kinds, rel, ons_t, leafkind, same, dotted, nullns)
+    except OutOfDomainGraph:
+        return True, "out of domain"
     reach = reachable(n, edges)
     files = {f"{DIR}/{full[i]}.avsc": _dumps_native(defs[i]) for i in range(n)}
     gone = None
@@ -188,7 +219,10 @@ def ob_load(n, E, kinds_t, rel_t, ons_t, leafkind, missing, ordered, same=False,
     fs = FakeFS(files)
     saved = FD.__dict__.get("open")
     saved_json = FD.json
+    saved_path = FD.__dict__.get("path")
     FD.open = fs.open
+    if saved_path is not None:
+        FD.path = _FakePath(fs)
     if rt.tokmode():
         FD.json = _J
     try:
@@ -207,6 +241,8 @@ def ob_load(n, E, kinds_t, rel_t, ons_t, leafkind, missing, ordered, same=False,
             return False, f"{type(e).__name__}: {e} for defs {defs!r}"
     finally:
         FD.json = saved_json
+        if saved_path is not None:
+            FD.path = saved_path
         if saved is None:
             del FD.open
         else:
@@ -339,8 +375,10 @@ def harnesses(tier, seed):
             K0 = tuple((i + seed) % 4 for i in range(ne))
             variants = [
                 # (suffix, call, params, samples)
-                ("positions", f"ob_load({n}, {E!r}, {wrapk}, {F_ne!r}, {F_n!r}, 0, -1, ordered)",
+                ("positions", f"ob_load({n}, {E!r}, {wrapk}, {F_ne!r}, {F_n!r}, 0, -1, ordered, kmax=4)",
                  f"kinds: {kt}, ordered: bool", [(one, False), (two, True)]),
+                ("nested", f"ob_load({n}, {E!r}, tuple(4 + int(b) for b in {wrapr}), {F_ne!r}, {F_n!r}, 0, -1, ordered)",
+                 f"rel: {rt_}, ordered: bool", [(fr, False), (tr, True)]),
                 ("names", f"ob_load({n}, {E!r}, {K0!r}, {wrapr}, ons, 0, -1, {bool(seed & 1)}, same)",
                  f"rel: {rt_}, ons: {ot}, same: bool",
                  [(fr, (False,) * n, False), (tr, (False,) * (n - 1) + (True,), True), (tr, (False,) * n, False)]),
@@ -348,7 +386,10 @@ def harnesses(tier, seed):
                  f"ons: {ot}, leafkind: int", [((False,) * n, 0), ((False,) * (n - 1) + (True,), 1), ((False,) * n, 2)]),
                 ("dotted", f"ob_load({n}, {E!r}, {K0!r}, {wrapr}, {F_n!r}, 0, -1, False, False, dotted)",
                  f"rel: {rt_}, dotted: {ot}", [(fr, (True,) * n), (tr, (True,) + (False,) * (n - 1)), (tr, (False,) * n)]),
-                ("missing", f"ob_load({n}, {E!r}, {wrapk}, {F_ne!r}, {F_n!r}, leafkind, missing, False)",
+                ("shortnames", f"ob_load({n}, {E!r}, {K0!r}, {F_ne!r}, ons, 0, missing, False, True, (), 6, nullns)",
+                 f"ons: {ot}, missing: int, nullns: bool", [((False,) * n, -1, False), ((False, True, False) + (False,) * (n - 3), 0, True),
+                                                            ((False, False, True) + (False,) * (n - 3), 1, True)]),
+                ("missing", f"ob_load({n}, {E!r}, {wrapk}, {F_ne!r}, {F_n!r}, leafkind, missing, False, kmax=4)",
                  f"kinds: {kt}, leafkind: int, missing: int", [(one, 0, 0), (two, 1, 1)]),
             ]
             if th:
@@ -356,8 +397,8 @@ def harnesses(tier, seed):
                                  f"kinds: {kt}, rel: {rt_}, ons: {ot}, leafkind: int, missing: int, ordered: bool, same: bool, dotted: {ot}",
                                  [(one, fr, (False,) * n, 0, -1, False, False, (False,) * n)]))
             if n == 3:
-                variants.append(("twice", f"ob_load_twice({n}, {E!r}, {wrapk}, {wrapr}, second)",
-                                 f"kinds: {kt}, rel: {rt_}, second: int", [(one, fr, 1), (two, tr, 2), (one, tr, 3 + 1 * 3 + 2)]))
+                variants.append(("twice", f"ob_load_twice({n}, {E!r}, tuple(int(b) for b in {wrapr}), {(True,) * ne!r}, second)",
+                                 f"rel: {rt_}, second: int", [(fr, 1), (tr, 2), (tr, 3 + 1 * 3 + 2)]))
             for suffix, call, ps, samples in variants:
                 hs.append(Harness(f"load.{name}.{suffix}", "props.l19", ps, call + "[0]", replay_call=call,
                                   what=f"load_schema over dependency graph {E} ({suffix})", samples=samples,
@@ -368,8 +409,8 @@ def harnesses(tier, seed):
             kt = "Tuple[" + ", ".join(["int"] * ne) + "]"
             rt_ = "Tuple[" + ", ".join(["bool"] * ne) + "]"
             name = "n%d.E%s" % (n, "_".join(f"{i}{j}" for i, j in E))
-            call = f"ob_load({n}, {E!r}, kinds, rel, {(False,) * n!r}, 0, -1, False)"
-            hs.append(Harness(f"load.{name}.shared_dep", "props.l19", f"kinds: {kt}, rel: {rt_}", call + "[0]", replay_call=call,
+            call = f"ob_load({n}, {E!r}, tuple(int(b) for b in arr), {(False,) * ne!r}, {(False,) * n!r}, 0, -1, ordered)"
+            hs.append(Harness(f"load.{name}.shared_dep", "props.l19", f"arr: {rt_}, ordered: bool", call + "[0]", replay_call=call,
                               what=f"load_schema over dependency graph {E} (shared type with its own dependency)",
-                              samples=[((0,) * ne, (False,) * ne), (tuple((i + 1) % 4 for i in range(ne)), (True,) * ne)], key=f"load:{name}:shared_dep"))
+                              samples=[((False,) * ne, False), ((True,) * ne, True)], key=f"load:{name}:shared_dep"))
     return hs
